@@ -140,10 +140,12 @@ class Inter:
                     # so the same call is never opened twice)
                     e2 = P.Event(e.fn, e.bb, e.line, e.callee, e.name, [sub(a) for a in e.args], [sub(a) for a in e.raw], sub(e.result), e.target, e.self_ty)
                     e2.idx = e.idx
+                    e2.opened = True
                     opened.append(e2)
                 else:
                     e2 = P.Event(e.fn, e.bb, e.line, e.callee, e.name, [sub(a) for a in e.args], [sub(a) for a in e.raw], sub(e.result), e.target, e.self_ty)
                     e2.idx = e.idx
+                    e2.opened = e.opened
                 events.append(e2)
                 items.append(("e", e2))
                 if e is after_event:
@@ -178,7 +180,7 @@ class Inter:
         parameters): the call value is replaced by each return value, the callee's branch conditions and events are
         spliced in after the call.  Returns [p] when the callee cannot be expanded."""
         t = e.target
-        if t is None or tag(e.result) != "call":
+        if t is None or tag(e.result) != "call" or e.opened:
             return [p]
         muts = [i for i in range(t.arg_count) if t.locals[i + 1]["ty"].startswith("&mut ") and "dyn cosmwasm_std::Storage" not in t.locals[i + 1]["ty"]]
         m = self.param_map(t, e.args)
@@ -231,23 +233,14 @@ class Inter:
             for (e, oks) in cands:
                 if len(work) * len(oks) > self.MAX_SPLIT:
                     break
-                m_e = self.param_map(e.target, e.args)
                 nxt = []
                 for q in work:
                     # the call may have been rewritten by an earlier split: locate its event again by index
-                    ev_q = next((x for x in q.events if x.idx == e.idx and x.target is e.target), None)
+                    ev_q = next((x for x in q.events if x.idx == e.idx and x.target is e.target and not x.opened), None)
                     if ev_q is None or tag(ev_q.result) != "call":
                         nxt.append(q)
                         continue
-                    m_q = self.param_map(e.target, ev_q.args)
-                    for cp in oks:
-                        if not self.feasible(cp, m_q):
-                            continue
-                        ret = sym.subst(cp.ret, m_q)
-                        extra = [(sym.subst(a, m_q), o, bb, ln) for (a, o, bb, ln) in cp.conds]
-                        q2 = self._subst_path(q, {ev_q.result: ret}, extra, ev_q)
-                        if q2 is not None:
-                            nxt.append(q2)
+                    nxt.extend(self.expand_on(q, ev_q))
                 work = nxt or work
             out.extend(work)
         return out
